@@ -85,23 +85,14 @@ Theorem C05_api_status_is_cache_status_or_old : forall w r F w' e wr,
 Proof. exact api_status_is_cache_status_or_old. Qed.
 Print Assumptions C05_api_status_is_cache_status_or_old.
 
-(* counters: the full-strength statement is REFUTED on the faithful model (defect F2);
-   what killPods writes instead is characterised for every input *)
+(* counters.  The two genuine defects were repaired in /repo (fix: killPods counts
+   retained and non-target pods ...; fix: syncJob counts an out-of-sync pod once);
+   the pre-fix functions are kept in the model with their refutation witnesses.
+   The full-strength statement is still refuted by the PodGroup-pending path
+   (known finding C05-pgpending-stale-counters). *)
 Theorem C05_counters_partition_refuted : ~ counters_partition_statement.
 Proof. exact counters_partition_refuted. Qed.
 Print Assumptions C05_counters_partition_refuted.
-
-Theorem C05_kill_zeroes_counters : forall w rt tg u F w',
-  kill_pods w rt tg u F = (w', false, true) -> st_cnt (w_st w') = c0 /\ st_tsc (w_st w') = [].
-Proof. exact kill_zeroes_counters. Qed.
-Print Assumptions C05_kill_zeroes_counters.
-
-Theorem C05_counters_partition_refuted_out_of_sync :
-  exists w', step_req oos_world sync_req [] = (w', false, true) /\ fresh_world oos_world /\
-             partition_ok (w_st w') (w_pods w') = false /\
-             st_cnt (w_st w') = mkC 0 1 0 0 0 /\ st_term (w_st w') = 1 /\ length (w_pods w') = 1%nat.
-Proof. exact counters_partition_refuted_out_of_sync. Qed.
-Print Assumptions C05_counters_partition_refuted_out_of_sync.
 
 Theorem C05_counters_partition_refuted_pg_pending :
   exists w', step_req pgpending_world sync_req [] = (w', false, true) /\ fresh_world pgpending_world /\
@@ -109,7 +100,28 @@ Theorem C05_counters_partition_refuted_pg_pending :
 Proof. exact counters_partition_refuted_pg_pending. Qed.
 Print Assumptions C05_counters_partition_refuted_pg_pending.
 
+Theorem C05_killpods_counters_prefix_refuted :
+  exists w', kill_pods_prefix f2_world RSoft None UNil [] = (w', false, true) /\ fresh_world f2_world /\
+             partition_ok (w_st w') (w_pods w') = false /\ st_cnt (w_st w') = c0 /\ length (w_pods w') = 1%nat.
+Proof. exact killpods_counters_prefix_refuted. Qed.
+Print Assumptions C05_killpods_counters_prefix_refuted.
+
+Theorem C05_kill_zeroes_counters_prefix : forall w rt tg u F w',
+  kill_pods_prefix w rt tg u F = (w', false, true) -> st_cnt (w_st w') = c0 /\ st_tsc (w_st w') = [].
+Proof. exact kill_zeroes_counters. Qed.
+Print Assumptions C05_kill_zeroes_counters_prefix.
+
+Theorem C05_sync_counters_prefix_refuted :
+  let a := sync_pods_prefix one_task_spec (w_pods oos_world) (w_pods oos_world) [] in
+  a_err a = false /\ (a_cnt a, a_term a) = (mkC 0 1 0 0 0, 1) /\ tally (a_pods a) = (c0, 1) /\ length (a_pods a) = 1%nat.
+Proof. exact sync_counters_prefix_refuted. Qed.
+Print Assumptions C05_sync_counters_prefix_refuted.
+
 (* non-vacuity *)
+Example C05_fixed_on_f2_witness :
+  exists w', step_req f2_world sync_req [] = (w', false, true) /\
+             partition_ok (w_st w') (w_pods w') = true /\ st_cnt (w_st w') = mkC 0 0 1 0 0.
+Proof. exact killpods_counters_fixed_on_witness. Qed.
 Example C05_nonvacuous_final :
   final_inv f2_world /\
   st_phase (v_st (run f2_world [OReq sync_req []; OSyncPods; OReq sync_req [FStatus 0]])) = PhCompleted.
